@@ -64,6 +64,14 @@ def items(tier):
                                 bound = 1 if (n <= 2 or (tier == "thorough" and n == 3 and r == 1)) else 0
                                 out.append({"case": {"g": g, "kinds": kinds, "pars": pars, "jobs": jobs, "fails": fails,
                                                      "stop_early": stop}, "bound": bound})
+    # --stop-early with several tasks in flight and exits arriving in a batch (one is reaped but not yet processed)
+    for g in ([[1, 2, 3], [], [], []], [[1, 2, 3, 4], [], [], [], []]):
+        n = len(g)
+        for failing in range(1, n):
+            for fk in (["exit", 3], ["signal", 9]):
+                for kinds in (["cmd"] * n, ["group"] + ["exp"] * (n - 1)):
+                    out.append({"case": {"g": g, "kinds": kinds, "pars": [k != "group" for k in kinds], "jobs": n - 1,
+                                         "fails": {str(failing): fk}, "stop_early": True}, "bound": 1})
     for case in rungrid.conformance_cases(tier, kindsets=(["cmd"] * 3, ["exp"] * 3, ["combine", "exp", "exp"])):
         out.append({"case": case, "bound": 0, "conform": True})
     return out
